@@ -49,6 +49,6 @@ def run(chk, ctx):
                     chk.ob("R4.error-path-cannot-reach-callback", "%s<-%s%s" % (f.key, core.strip_generics(core.callee_path(t) or "?"), tag), bool(cs) and not leaks,
                            "a failure of %s can still reach the update callback" % core.callee_path(t), where=f.loc(b))
             chk.count("fallible_steps_before_callback", n)
-    chk.floor("panic_sites", 230)
-    chk.floor("functions_reachable", 200)
+    chk.floor("panic_sites", 170)
+    chk.floor("functions_reachable", 150)
     chk.floor("fallible_steps_before_callback", 4)
